@@ -2,7 +2,7 @@ CONSTANTS
   G = 2
   Ws = {3}
   D <- DQuick
-  Als = {0, 1, 2}
+  Als = {2}
   HasFill = TRUE
   BoxUsed <- BoxWithoutStroke
 SPECIFICATION Spec
